@@ -17,6 +17,10 @@ def handle (α : Type) [Arith α] [Wire α] : List Sexp → Sexp
       | some r => app "ok" [r.enc]
       | none => app "err" [.atom "fuel"]
     | none => app "err" [.atom "decode"]
+  | [.atom "collapses", e] =>
+    match (Exp.dec e : Option (Exp α)) with
+    | some e => app "ok" [.atom (if Exp.collapsesNonbinary (fun _ => false) e then "true" else "false")]
+    | none => app "err" [.atom "decode"]
   | _ => app "err" [.atom "bad-request"]
 
 /-- exact oracle: the PROPERTY evaluated on the implementation's own answer. -/
